@@ -62,6 +62,26 @@ fn main() {
                 }
             }
         }
+        "probe-cycle" => {
+            // internal: dsverif probe-cycle <dir> <len> <style>
+            if args.len() < 5 {
+                usage();
+            }
+            props::c07::probe_include_cycle(&args[2], args[3].parse().unwrap_or(1), args[4].parse().unwrap_or(0))
+        }
+        "shard" => {
+            // internal: dsverif shard <prop> <section> <tier> <seed> <shard>
+            if args.len() < 7 {
+                usage();
+            }
+            let tier = if args[4] == "thorough" { Tier::Thorough } else { Tier::Quick };
+            let seed: u64 = args[5].parse().unwrap_or(1);
+            let shard: usize = args[6].parse().unwrap_or(0);
+            match props::all().into_iter().find(|p| p.id == args[2]) {
+                Some(p) => engine::run_shard_child(&p, &args[3], tier, seed, shard),
+                None => 2,
+            }
+        }
         "replay" => {
             if args.len() < 3 {
                 usage();
